@@ -1,5 +1,5 @@
 SPECIFICATION Spec
-INVARIANT CoordsTrue
+INVARIANTS CoordsTrue CursorInBounds
 CONSTANTS
   Alphabet = {"v", "sp", "nl", "cr", "sl", "st", "hs", "sc", "dot"}
   MaxLen = 4
